@@ -86,6 +86,14 @@ def main():
             elif os.path.isfile(pe_) and os.path.getsize(pe_) < 200000:
                 shutil.copy(pe_, os.path.join(wt, refdir, e_))
                 shared.append(e_)
+        # symbolic links of the agent's pristine copy that point into the agent's worktree point into this one
+        for root_, dirs_, files_ in os.walk(os.path.join(wt, refdir)):
+            for nm_ in dirs_ + files_:
+                pth_ = os.path.join(root_, nm_)
+                if os.path.islink(pth_) and os.readlink(pth_).startswith("/tmp/wt_%s" % pid):
+                    tgt_ = os.readlink(pth_).replace("/tmp/wt_%s" % pid, wt, 1)
+                    os.unlink(pth_)
+                    os.symlink(tgt_, pth_)
         rc, out = sh("git -C %s apply --check %s && git -C %s apply %s" % (wt, patch, wt, patch))
         meta["applies"] = rc == 0
         if rc:
